@@ -58,6 +58,10 @@ def main():
              'kind_free_text': 'own bounded symbolic executor over rustc MIR text (python3-vt + z3): shape-concrete/data-symbolic, DFS by replay, 16 worker processes'},
             {'name': 'replay', 'path': 'replay/', 'serves_properties': claimed,
              'kind_free_text': 'native Rust driver (path dependency on /repo) that replays solver counterexamples and validates the engine; never the deciding step'},
+            {'name': 'replay_cfg', 'path': 'replay_cfg/', 'serves_properties': [p for p in ('C13', 'C18') if p in claimed],
+             'kind_free_text': 'native driver built per cargo-feature set of vaporetto (confirmation of counterexamples of other feature configurations)'},
+            {'name': 'replay_tantivy', 'path': 'replay_tantivy/', 'serves_properties': [p for p in ('C16',) if p in claimed],
+             'kind_free_text': 'native driver running the real VaporettoTokenizer through the Tantivy API (confirmation of token-stream counterexamples); built on demand'},
         ],
         'checks': checks,
         'not_applicable': not_applicable,
